@@ -273,6 +273,15 @@ def rule_rt2(prog, G, prop=PROP, rid='R-RT-2'):
                     'transformer %s has no such callback: a raw parse tree '
                     'is returned instead of a formula' % (
                         lang, name, g.transformer.short())))
+            elif cb[0] == 'function':
+                r.fail(Finding(
+                    prop, rid, cb[-1].where(), cb[-1].short(),
+                    'function:%s:%s:%s' % (lang, name, cb[1].name),
+                    'callback `%s` of the %s parser builds its result with '
+                    'the function %s(%s) instead of the constructor of the '
+                    'operator: the parsed tree need not be the tree that '
+                    'was written (e.g. stacked negations collapse)' % (
+                        name, lang, cb[1].short(), cb[2])))
             elif cb[0] == 'construct-other':
                 r.fail(Finding(
                     prop, rid, cb[-1].where(), cb[-1].short(),
